@@ -2,6 +2,7 @@
 import os
 
 import addrcommon as ac
+import fetchcommon as fc
 import vp
 
 
@@ -36,12 +37,14 @@ def run(tier):
         chk.violation("array indexing outside the C17 Contract: %s" % ac.pretty(ev), ac.pretty(ev))
     for ev in events[0:3]:
         chk.sample(ac.pretty(ev))
-    chk.count(evaluations=len(events), distinct=len(combos), traces=1)
+    # the index itself lives in sandbox memory and changes between reads
+    nf, cf = fc.judge(chk, wd, "c17", "C17", ("wasm32", "ilp64", "lp16"))
+    chk.count(evaluations=len(events) + nf, distinct=len(combos) + len(cf), traces=1)
     chk.cov["exhaustive"] = True
     chk.cov["exhaustive_scope"] = "every 8-bit index and (per tier) every 16-bit index for lengths {1,2,3,5,8,16}(+{4,7,9,15}) x " \
                                   "6 element types x application/sandbox memory x plain/tainted index; 32/64-bit indices at " \
                                   "-1, length, type limits and values aliasing a valid index after truncation; one 2-D shape; lengths 300 " \
-                                  "and 40000 (longer than the range of 8-/16-bit index types) with every 8- and 16-bit index"
+                                  "and 40000 (longer than the range of 8-/16-bit index types) with every 8- and 16-bit index; indices read from a sandbox-memory cell that is rewritten after every read (8 index types x 9 arrays x scripts of valid / invalid values, 3 ABIs)"
     chk.assumptions += ["flag-abort build; element offsets are measured with std::addressof on the returned reference"]
     return chk.finish(rule="one evaluation = one run of consecutive indices with one outcome, judged by TLC "
                            "(IndexRunAllowed); distinct_nontrivial = distinct (memory kind, element, index type, wrapper, "
